@@ -438,4 +438,3 @@ func uncoveredText(id string) string {
 	return m[id]
 }
 
-func cmdSelftest(args []string) {}
